@@ -125,7 +125,10 @@ template<int KIND, template<class> class A> static std::string run_container(std
 				if (a % 2) s[a]->swap(*s[b]); else { using std::swap; swap(*s[a], *s[b]); }
 				t[a]->swap(*t[b]);
 				if (pooled && (pool_of(*s[a]) != pb0 || pool_of(*s[b]) != pa0)) failf("swapped containers do not carry their pools"); } }
-			else if (op == "sp") { is >> a >> b; if (s[a] && s[b] && a != b && s[a]->get_allocator() == s[b]->get_allocator()) {
+			// libstdc++ 12: unordered merge() / insert(node_type&&) never destroy the allocator copy held by the node handle
+			// (hashtable.h: __nh._M_ptr = nullptr without _M_alloc.release()), so an allocator object - and with it a
+			// reference to the pool - is leaked by the LIBRARY; "sp" therefore skips hashed containers, "spx" does not.
+			else if (op == "sp" || op == "spx") { is >> a >> b; if (!(O::hashed && op == "sp") && s[a] && s[b] && a != b && s[a]->get_allocator() == s[b]->get_allocator()) {
 				O::splice(*s[a], *s[b]); O::splice(*t[a], *t[b]); } }
 			else { failf("unknown op"); break; }
 		}
@@ -151,7 +154,11 @@ template<int KIND, template<class> class A> static std::string run_container(std
 	for (int i = 0; i < NS; ++i) { s[i].reset(); t[i].reset(); }
 	op = "end"; ++idx;
 	if (!kit::W().errors.empty()) failf("base allocator protocol: " + kit::W().errors[0]);
-	if (kit::W().live_blocks() != 0) failf("all containers destroyed but " + std::to_string(kit::W().live_blocks()) + " base blocks outstanding");
+	if (kit::W().live_blocks() != 0)
+	{
+		failf("all containers destroyed but " + std::to_string(kit::W().live_blocks()) + " base blocks outstanding");
+		while (!kit::W().blocks.empty()) { auto it = kit::W().blocks.begin(); kit::raw_deallocate(it->second.mgr, it->first, it->second.size); }  // do not poison later cases
+	}
 	if (!fail.empty()) return fail;
 	return "ok ops=" + std::to_string(n_ops) + " maxnodes=" + std::to_string(max_nodes) + " basealloc=" + std::to_string(kit::W().n_alloc);
 }
@@ -248,7 +255,7 @@ static std::string run_direct(std::istringstream& is)
 template<int KIND> static std::string dispatch(std::istringstream& is, const std::string& alloc)
 {
 	if (alloc == "pa") return run_container<KIND, PA>(is, true);
-	if (alloc == "mon") return run_container<KIND, Mon>(is, true);
+	if (alloc == "mon") return run_container<KIND, Mon>(is, false);   // pool identity / count checks are done in the pa run (fewer events here)
 	return "FAIL unknown allocator " + alloc;
 }
 
